@@ -74,10 +74,12 @@ func (wf *WALFileType) Replay(dryRun bool) error {
 				return fmt.Errorf("seek error: %w", err)
 			}
 			tgID, tgSerialized, err := wf.readTGData()
-			tgData[tgID] = tgSerialized
-			if continueRead = fullRead(err); !continueRead {
+			if err != nil {
+				// a damaged or partial record is never replayed (and must not count as TG data)
+				continueRead = fullRead(err)
 				break // Break out of switch
 			}
+			tgData[tgID] = tgSerialized
 			// give up Replay if there is already a TG data location in this WAL
 			if _, ok := offsetTGDataInWAL[tgID]; ok {
 				log.Error(io.GetCallerFileContext(0) + ": Duplicate TG Data in WAL")
